@@ -36,7 +36,7 @@ func ZZ_C07_SessionLifecycle() {
 // The same histories, shorter, with one pre-emption at any synchronisation
 // point of the receive loop, reply loops, sweeper and the driving thread.
 //
-//verif:harness kind=api replay=native+sched unwind=400 preempt=1 bound=datagram-or-first-fragment,[one-free-event(thorough)],datagram-racing-the-sweeper;one-preemption
+//verif:harness kind=api replay=native+sched unwind=400 preempt=1 sched=all bound=all-wake-up-orders,datagram-or-first-fragment,[one-free-event(thorough)],datagram-racing-the-sweeper;one-preemption
 func ZZ_C07_SessionLifecyclePreempt() {
 	steps := 2
 	if verifThorough() {
